@@ -91,3 +91,13 @@ package storage
 //@   onpanic[C17] querier-closed-exactly-once-when-a-callback-panics: ncalls("promstorage.Queryable.Querier") == 1 && ncalls("promstorage.Querier.Select") >= 1 ==>
 //@       callres("promstorage.Queryable.Querier", 1, 0).closes == 1
 //@   loop 0 invariant o != nil && i >= 0 && callres("promstorage.Queryable.Querier", 1, 0).closes == 0 && seriesSet != nil
+
+// ---- filter.go: the in-engine filter of a merged select (C09) ------------------------------------
+// A series passes iff every matcher of the filter holds for the series' value of the matcher's label,
+// the value of a label the series does not have being "" (labels.Get) - exactly the storage's rule
+// for the same matchers, which is what makes "broader select + filter" equal to the original select.
+//@ func (filter).Matches
+//@   requires series != nil && (forall i in 0..len(f.matchers) :: f.matchers[i] != nil)
+//@   assigns nothing
+//@   ensures[C09] every-matcher-holds-absent-label-is-empty: result == (forall i in 0..len(f.matchers) :: f.matchers[i].Matches(series.Labels().Get(f.matchers[i].Name)))
+//@   loop 0 invariant sameslice(lbls, series.Labels()) && (forall i in 0..rangeindex+1 :: f.matchers[i].Matches(series.Labels().Get(f.matchers[i].Name)))
